@@ -18,6 +18,27 @@ pub fn run_history(h: &History, oracle: &mut dyn Oracle) -> Outcome {
     let mut sim = Sim::new(&h.world);
     for op in &h.ops {
         let obs = sim.step(op);
+        if std::env::var("VCHECK_TRACE").is_ok() {
+            if let StepObs::Msg(m) = &obs {
+                eprintln!(
+                    "TRACE client#{} ciaddr={} opts={:?} id={:02x?} type={:?} named={:?} pool={:?} edge={} wall={} result={:?}\n      before={:?}\n      after={:?}",
+                    m.client,
+                    m.request.ciaddr,
+                    m.request.options.iter().map(|(c, v)| (*c, v.len())).collect::<Vec<_>>(),
+                    m.identity,
+                    m.msgtype,
+                    m.named,
+                    m.pool_addrs,
+                    m.clock_edge,
+                    m.wall_before,
+                    m.result.as_ref().map(|r| (r.yiaddr, r.msg_type())).map_err(|e| format!("{:?}", e)),
+                    m.before.iter().map(|r| (r.ip, r.client.clone(), r.start, r.expire)).collect::<Vec<_>>(),
+                    m.after.iter().map(|r| (r.ip, r.client.clone(), r.start, r.expire)).collect::<Vec<_>>()
+                );
+            } else if let StepObs::Advance { secs } = &obs {
+                eprintln!("TRACE advance {}", secs);
+            }
+        }
         if let StepObs::Msg(m) = &obs {
             if m.clock_edge {
                 out.excluded.push("clock-edge-step");
